@@ -20,6 +20,8 @@ impl<'a, T> ChoiceHelper<'a, T> {
 
     #[inline]
     pub fn choice(mut self, parse_fn: impl FnOnce(ParseState<'a>) -> ParseResult<'a, T>) -> Self {
+        #[cfg(peginator_verif)]
+        crate::verif::tick();
         if self.result.is_none() {
             match parse_fn(self.state.clone()) {
                 Ok(ok_result) => self.result = Some(ok_result),
